@@ -509,7 +509,7 @@ class C15(Check):
             target = "gen"
             gi = run
         else:
-            target = prng.weighted_choice(rng, [("gen", 3), ("ns2d", 3), ("ns3d", 3), ("passive", 1), ("solver", 1), ("interaction", 1)])
+            target = prng.weighted_choice(rng, [("gen", 3), ("ns2d", 3), ("ns3d", 3), ("passive", 1), ("solver", 1), ("interaction", 3)])
             gi = rng.randrange(n_gen)
         p = {"target": target, "sched_seed": rng.getrandbits(32), "sub": prng.sub_seed(rng), "precision": rng.choice(["single", "double"]), "num_threads": rng.choice([1, 2, 4])}
         if target == "gen":
@@ -536,7 +536,7 @@ class C15(Check):
             p.update({"dim": dim, "shape": list(rng.choice(SHAPES[dim])), "vector": dim == 3 and rng.random() < 0.5, "view": rng.choice(["plain", "component", "inplace"])})
         else:
             dim = rng.choice([2, 3])
-            p.update({"dim": dim, "shape": list(rng.choice(SIM_SHAPES[dim])), "reset": rng.random() < 0.5, "n_markers": rng.choice([3, 8, 8, 24, 2500, 4100]), "evals": 2, "repeat_identical": rng.choice([0, 30, 60])})
+            p.update({"dim": dim, "shape": list(rng.choice(SIM_SHAPES[dim])), "reset": rng.random() < 0.5, "n_markers": rng.choice([3, 8, 24, 2500, 4100]), "evals": 2, "repeat_identical": rng.choice([0, 30, 60])})
             if p["n_markers"] > 100:
                 p["repeat_identical"] = min(p["repeat_identical"], 30)
         if target != "gen":
@@ -647,7 +647,8 @@ class C15(Check):
             for th in thunks:
                 th()
         res.probe("kernels_built", len(new))
-        if p.get("fidelity"):
+        if p.get("fidelity") and not res.violations:
+            # (a kernel with a hazard legitimately differs between the sequential executor and a threaded build)
             self._fidelity(new, dim, shape, real_t, p, res)
 
     def _fidelity(self, kernels, dim, shape, real_t, p, res):
